@@ -19,7 +19,7 @@ import (
 // registered for its UID and is listed there; a record that is not registered has no live session.
 
 type c17rOp struct {
-	K   string // connect connect|| lateclose peerclose terminate upload exhaust topup connect+close
+	K   string // connect connect|| upload-fails lateclose peerclose terminate upload exhaust topup connect+close
 	U   int
 	Sid uint32
 	I   int
@@ -50,7 +50,7 @@ func c17rRun(sc c17rCase) (vk.Result, error) {
 	}
 	var recs []rec
 	var sess []ses
-	staleOp, duringAuth, simultaneous := false, false, false
+	staleOp, duringAuth, simultaneous, uploadFailed := false, false, false, false
 	fm.userYield = 300
 	cfg := mux.SessionConfig{Obfuscator: mux.Obfuscator{}, Valve: nil, Unordered: false}
 	var bk sync.Mutex // guards recs and sess while admissions run in parallel
@@ -177,6 +177,21 @@ func c17rRun(sc c17rCase) (vk.Result, error) {
 		case "upload":
 			panel.updateUsageQueue()
 			panel.commitUpdate()
+		case "upload-fails":
+			// the user database is unavailable for one round: the round fails, everything else must go on
+			fm.mu.Lock()
+			fm.failUploads = 1
+			fm.mu.Unlock()
+			for _, r := range recs {
+				r.r.valve.AddRx(10)
+			}
+			panel.updateUsageQueue()
+			if err := panel.commitUpdate(); err != nil {
+				uploadFailed = true
+			}
+			fm.mu.Lock()
+			fm.failUploads = 0
+			fm.mu.Unlock()
 		case "exhaust", "topup":
 			var a [16]byte
 			copy(a[:], c15UID(op.U%sc.Users))
@@ -199,6 +214,9 @@ func c17rRun(sc c17rCase) (vk.Result, error) {
 	res.NonTrivial = staleOp || duringAuth || simultaneous
 	if simultaneous {
 		res.Labels = append(res.Labels, "simultaneous-admissions-of-one-user")
+	}
+	if uploadFailed {
+		res.Labels = append(res.Labels, "an-upload-round-failed")
 	}
 	if duringAuth {
 		res.Labels = append(res.Labels, "session-end-reported-during-an-authorisation-query")
@@ -232,8 +250,10 @@ func TestVerif_C17_Records(t *testing.T) {
 				op.K = "peerclose"
 			case k < 80:
 				op.K = "terminate"
-			case k < 88:
+			case k < 85:
 				op.K = "upload"
+			case k < 88:
+				op.K = "upload-fails"
 			case k < 94:
 				op.K = "exhaust"
 			default:
